@@ -595,8 +595,13 @@ func HashMapOfValueGet(vm *Thread, hashMap *HashMapOfValue, key value.Value) (va
 	if index == -1 {
 		return value.Undefined, value.Undefined
 	}
+	entry := hashMap.Table[index]
+	if entry.Key().IsUndefined() {
+		// empty or deleted slot: the key is absent
+		return value.Undefined, value.Undefined
+	}
 
-	return hashMap.Table[index].Value(), value.Undefined
+	return entry.Value(), value.Undefined
 }
 
 // Check if the given pair is present in the map
